@@ -64,8 +64,9 @@ WriteRawC(p, tag)      == [cont EXCEPT ![p] = C(NoFs, tag, tag)]
 \* a raw copy into a slot of the same size is a copy; into a larger slot only the leading bytes are
 \* replaced (the tail stays, and whether the filesystem is still recognised there is not promised).
 \* Never-written bytes (tag 0) are a position-dependent background on the test device: copied elsewhere
-\* they are just "something" (WILD); that they equal the source is checked on the bytes (copysame).
-Moved(t) == IF t = 0 THEN WILD ELSE t
+\* they are just "something", and "something" (-1) copied back to where it came from may be background
+\* again: both become WILD; that the copy equals the source is checked on the bytes (copysame).
+Moved(t) == IF t \in {0, -1} THEN WILD ELSE t
 CopyC(p, q)            == [cont EXCEPT ![q] = IF SameSize(p, q) THEN C(cont[p].fs, Moved(cont[p].head), Moved(cont[p].tail))
                                               ELSE C(IF cont[p].fs.type = "none" THEN NoFs ELSE AnyFs, Moved(cont[p].head), cont[q].tail)]
 
